@@ -15,6 +15,10 @@ Oracle         the property restated in NumPy float64:
                size N with copies of its first N - n samples; for FFT-good n (N = n) the two coincide.  The recovery clause of
                the property is false for that padded definition (Props/C13.v, C13_circular_pad_recovery_refuted), so it cannot be
                the reading the property intends; see findings.d/C13.md.
+               General banks: kernels.convolve_templates is also called directly with ascending, descending, shuffled and repeated
+               banks and with each template alone (free_templates): every row must be the direct sum for ITS template and agree
+               with the row that template gets alone -- the response of a template does not depend on the rest of the bank.
+At scale       scale(R): the same definitions on series of 2**16 .. 2**24 samples (float64 rows from ScaleRef), see its docstring.
 
 Tolerance: responses are compared in units of  eps32 * (log2 n + 1) * ||z||_2  (templates have unit norm; three float32
 transforms of length n plus the float32 mean / norm of the template).  Worst value measured over all cases on the repaired tree:
@@ -74,7 +78,8 @@ def run(R: vlib.Run):
               "lorentzian; bank (nbins_max, spacing_factor) varied; noise + pulse at positions {0, 1, n-w, n-1, random}; offsets and "
               "positive scalings; noiseless boxcars of every bank width at the edges and inside.  A case = one MatchedFilter run compared "
               "value by value with the float64 direct sums; non-trivial = at least 2 templates and n >= 8; distinct = distinct "
-              "(check, n, kind, bank, position / factor)" % (72 if quick else 260))
+              "(check, n, kind, bank, position / factor).  Kernel on general banks: 3..6 templates of pairwise different lengths (boxcar, "
+              "peaked, free-form; any reference bin) in ascending / descending / shuffled / repeated order and alone" % (72 if quick else 260))
     R.trusted += ["Coq 8.16.1 kernel + vm_compute", "tools/py2coq/gen_c12.py + py2coq.py (Python ast -> Gallina) and Model/C12_np.v, "
                   "Model/C13_np.v (NumPy semantics of roll, [::-1], prefix assignment, argmax, unravel_index)",
                   "the oracle tools/harness/props/c13.py (float64 direct sums, tolerance 8 units of eps32*(log2 n+1)*||z||)"]
@@ -234,6 +239,105 @@ def run(R: vlib.Run):
                 if mf.peak_bin != p or int(mf.best_temp.width) != w or tuple(mf.on_pulse) != (p, p + w):
                     R.fail(f"boxcar-recovery-{cls}", "noiseless boxcar of a bank width is not recovered at its start bin with that width",
                            dict(c, peak_bin=mf.peak_bin, best_width=float(mf.best_temp.width), on_pulse=[int(v) for v in mf.on_pulse], snr=float(mf.snr)))
+    # ---------------- the public kernel on general banks --------------------------------------------------------------
+    # "For every template in the bank": the response of a template is a function of the data and of that template only.
+    # MatchedFilter only ever builds banks of non-decreasing template length; kernels.convolve_templates (the mechanism the
+    # property names) takes any bank: ascending, descending, shuffled, with repeated templates, a single template.  Every row must
+    # be the float64 direct inner product for ITS template (TOL units), hence also the row that template gets when it is alone
+    # in the bank (2 TOL units).
+    def free_templates(g, n, m):
+        """m templates of pairwise different lengths <= n with their reference bins: generated shapes and free-form ones"""
+        lens = sorted({int(v) for v in g.integers(1, min(n, 48) + 1, size=3 * m)} | ({n, max(1, n - 1)} if g.random() < 0.3 else set()))
+        lens = [int(v) for v in g.permutation(lens)[:m]]
+        out = []
+        for L in sorted(lens):
+            k = int(g.integers(0, 3))
+            if k == 0:
+                d, ref = Template.gen_boxcar(L).data, 0
+            elif k == 1 and L >= 3:
+                ref = int(g.integers(0, L))
+                xs = np.arange(L) - ref
+                d = np.exp(-0.5 * (xs / max(L / 6.0, 0.5)) ** 2) if g.random() < 0.5 else 1.0 / (1.0 + (xs / max(L / 7.0, 0.5)) ** 2)
+            else:
+                ref = int(g.integers(0, L))
+                d = g.uniform(-1.0, 1.0, size=L)
+                d[int(g.integers(0, L))] += 2.0          # never constant
+            out.append((np.ascontiguousarray(d, dtype=np.float32), int(ref)))
+        return out
+
+    def kernel_rows(z, temps):
+        return kernels.convolve_templates(z, typed.List([d for d, _ in temps]), typed.List([r for _, r in temps]))
+
+    kb_ns = ([8, 12, 13, 16, 25, 27, 31, 32, 45, 64, 81, 96, 97, 100, 128] if quick
+             else list(range(6, 70)) + [75, 81, 96, 97, 100, 125, 127, 128, 135, 200, 243, 256, 257])
+    for n in kb_ns:
+        N = int(kernels.nb_fft_good_size(n, True))
+        cls = size_class(n, N)
+        for rep in range(2 if quick else 3):
+            sub = rng.randrange(2 ** 32)
+            g = np.random.default_rng(sub)
+            z = g.normal(0.0, 1.0, size=n)
+            p0, w0 = int(g.integers(0, n)), int(g.integers(1, max(2, n // 4)))
+            z[(p0 + np.arange(w0)) % n] += float(g.uniform(3, 9))
+            z = z.astype(np.float32)
+            asc = free_templates(g, n, int(g.integers(3, 7)))
+            m = len(asc)
+            unit = EPS * (np.log2(n) + 1) * max(float(np.linalg.norm(z.astype(np.float64))), 1e-30)
+            exp1 = direct_responses(z, asc)                     # row j: template asc[j], from the definition
+            base = {"check": "kernel on a general bank", "n": n, "good_size": N, "numpy_subseed": sub, "data": small(z),
+                    "templates_ascending": [{"length": len(d), "ref_bin": r, "samples": small(d)} for d, r in asc],
+                    "reproduce": "kernels.convolve_templates(data, typed.List(templates in the given order), typed.List(ref bins)); "
+                                 "generator: free_templates in tools/harness/props/c13.py"}
+            alone = []
+            ok = True
+            for j in range(m):
+                R.case(("kbank", n, "single", sub, j), nontrivial=False, regime="kernel-bank/single")
+                try:
+                    c1 = kernel_rows(z, [asc[j]])
+                except Exception as e:  # noqa: BLE001
+                    R.fail(f"kernel-bank-raises-{cls}", f"convolve_templates raised {type(e).__name__}: {str(e)[:100]}", dict(base, order=[j]))
+                    ok = False
+                    break
+                alone.append(c1[0].astype(np.float64))
+                u = float(np.abs(alone[j] - exp1[j]).max() / unit)
+                note("kernel-bank", u if np.isfinite(u) else 1e30, n)
+                if c1.shape != (1, n) or not u <= TOL:
+                    R.fail(f"kernel-bank-single-{cls}", "the response of a single-template bank differs from the inner product of the data with "
+                           "the normalised template", dict(base, order=[j], error_units=u))
+            if not ok:
+                continue
+            perm = [int(v) for v in g.permutation(m)]
+            if perm == sorted(perm) or perm == sorted(perm, reverse=True):
+                perm = perm[1:] + perm[:1]
+            lo, hi = 0, m - 1
+            orders = {"ascending": list(range(m)), "descending": list(range(m - 1, -1, -1)), "shuffled": perm,
+                      "repeated": [hi, lo, hi, lo, lo, int(g.integers(0, m)), hi]}
+            for oname, order in orders.items():
+                R.case(("kbank", n, oname, sub), nontrivial=n >= 8, regime=f"kernel-bank/{oname}",
+                       sample={"n": n, "order": order, "lengths": [len(asc[j][0]) for j in order]} if n in (13, 64) and rep == 0 else None)
+                try:
+                    c = kernel_rows(z, [asc[j] for j in order])
+                except Exception as e:  # noqa: BLE001
+                    R.fail(f"kernel-bank-raises-{cls}", f"convolve_templates raised {type(e).__name__}: {str(e)[:100]}", dict(base, order=order))
+                    continue
+                if c.shape != (len(order), n):
+                    R.fail("kernel-bank-shape", "the response is not (ntemps, nbins)", dict(base, order=order, shape=list(c.shape)))
+                    continue
+                for i, j in enumerate(order):
+                    row = c[i].astype(np.float64)
+                    u = float(np.abs(row - exp1[j]).max() / unit)
+                    ua = float(np.abs(row - alone[j]).max() / unit)
+                    note("kernel-bank", u if np.isfinite(u) else 1e30, n)
+                    if not u <= TOL or not ua <= 2 * TOL:
+                        t = int(np.argmax(np.abs(row - exp1[j])))
+                        R.fail(f"kernel-bank-{oname}-{cls}", "a row of convolve_templates is not the inner product of the data with ITS normalised "
+                               "template: it differs from the float64 direct sum and from the response of the same template alone in the bank "
+                               "(the response depends on the other templates of the bank / their order)",
+                               dict(base, order=order, row=i, template=j, template_length=len(asc[j][0]),
+                                    preceded_by_lengths=[len(asc[q][0]) for q in order[:i]], bin=t, got=float(row[t]),
+                                    expected=float(exp1[j][t]), alone=float(alone[j][t]), error_units=u, error_vs_alone_units=ua))
+                        break
+
     R.extra_cov["worst_error_units"] = {k: {"units": v[0], "at_n": v[1]} for k, v in worst.items()}
     R.extra_cov["tolerance_units"] = TOL
 
@@ -335,3 +439,328 @@ Eval vm_compute in (length cases, map fst (filter (fun p => snd p =? 2) (combine
             R.disagree("Model np_argmax / np_unravel_index differ from NumPy", {"matrix": M, "numpy": [i, t, mx]})
     R.extra_cov["correspondence_cases"] = len(cases) + len(am)
     return R
+
+
+# ======================================================================================================================
+# at-scale search
+# ======================================================================================================================
+def scale_data(seed, n, pulses, noise=True):
+    """generator of the at-scale inputs (replay: the case dict carries seed, n, pulses, noise):
+    float32 N(0,1) noise from numpy.random.default_rng(seed).standard_normal(n, dtype=float32) (zeros when noise is False)
+    plus, for every (start, width, height) in pulses, `height` added to the bins start .. start+width-1 (circular)"""
+    g = np.random.default_rng(seed)
+    x = g.standard_normal(n, dtype=np.float32) if noise else np.zeros(n, dtype=np.float32)
+    for p, w, a in pulses:
+        x[(p + np.arange(w)) % n] += np.float32(a)
+    return x
+
+
+def scale_template(seed, L):
+    """free-form template of L samples for the at-scale kernel cases: a decaying oscillation with float32 noise, never constant"""
+    g = np.random.default_rng(seed)
+    k = np.arange(L, dtype=np.float64)
+    d = np.cos(k * (2 * np.pi / 37.0)) * np.exp(-k / max(L / 3.0, 1.0)) + 0.25 * g.standard_normal(L)
+    d[0] += 2.0
+    return d.astype(np.float32)
+
+
+class ScaleRef:
+    """float64 reference rows  r[t] = sum_k z[(t + k - ref) mod n] * tnorm[k]  without the n x n index matrix of direct_responses:
+    constant templates (boxcars) by window sums of a float64 cumulative sum, others by a float64 FFT correlation; `spot` evaluates
+    the defining sum itself at chosen bins."""
+
+    def __init__(self, z):
+        self.z = np.asarray(z, dtype=np.float64)
+        self.n = len(self.z)
+        self.sumz = float(self.z.sum())
+        self.norm = float(np.sqrt((self.z ** 2).sum()))
+        self._fz = None
+
+    def stats(self, d):
+        d = np.asarray(d, dtype=np.float32).astype(np.float64)
+        mean = float(d.sum()) / self.n
+        q = float(((d - mean) ** 2).sum()) + (self.n - len(d)) * mean * mean
+        return d, mean, (np.sqrt(q) if q > 0 else 0.0)
+
+    def row(self, d, ref):
+        n = self.n
+        d, mean, nrm = self.stats(d)
+        L = len(d)
+        if L <= n and np.all(d == d[0]):
+            c = np.empty(n + L + 1)
+            c[0] = 0.0
+            np.cumsum(self.z, out=c[1:n + 1])
+            if L:
+                np.cumsum(self.z[:L], out=c[n + 1:])
+                c[n + 1:] += c[n]
+            w = (c[L:L + n] - c[:n]) * d[0]
+            del c
+        else:
+            if self._fz is None:
+                self._fz = np.fft.rfft(self.z)
+            tp = np.zeros(n)
+            tp[:L] = d
+            w = np.fft.irfft(self._fz * np.conj(np.fft.rfft(tp)), n)
+            del tp
+        w -= mean * self.sumz
+        if nrm != 0:
+            w /= nrm
+        return np.roll(w, ref) if ref % n else w
+
+    def spot(self, d, ref, bins):
+        d, mean, nrm = self.stats(d)
+        k = np.arange(len(d))
+        out = []
+        for t in bins:
+            v = float((self.z[(int(t) + k - ref) % self.n] * d).sum()) - mean * self.sumz     # (no BLAS: its threads crawl on a loaded machine)
+            out.append(v / nrm if nrm != 0 else v)
+        return np.array(out)
+
+
+def scale(R: vlib.Run):
+    """at-scale search: data lengths just below / at / above 2**16, 2**18, 2**20, 2**22 and above 2**24 (FFT-good and not), pulses and
+    peak bins beyond 65536 / 2**24, flat arg-max indices beyond 2**24, banks of hundreds of templates, templates and reference bins
+    longer than 65536 samples, offsets / factors at scale, noiseless boxcars far from the origin.  Same definitions and the same
+    tolerance (TOL units of eps32 * (log2 n + 1) * ||z||) as the small-scope oracle of run(); the float64 rows come from ScaleRef."""
+    import gc
+    import time
+
+    from numba import typed
+    from sigpyproc.core import kernels
+    from sigpyproc.core.filters import MatchedFilter
+
+    seed0 = R.seed + 1313
+    GEN = "tools/harness/props/c13.py: x = scale_data(seed, n, pulses, noise)"
+    worst = {}
+    t_start = time.time()
+
+    def note(key, u, n):
+        if u > worst.get(key, (0.0, 0))[0]:
+            worst[key] = (round(float(u), 4), int(n))
+
+    def spot_bins(n, extra=()):
+        g = np.random.default_rng(seed0 + n)
+        b = {0, 1, 2, n - 1, n - 2, n // 2, 65535 % n, 65536 % n, 65537 % n, (2 ** 24 - 1) % n, 2 ** 24 % n, (2 ** 24 + 1) % n}
+        b |= {int(v) % n for v in extra} | {int(v) for v in g.integers(0, n, size=24)}
+        return sorted(b)
+
+    def compare_rows(key, convs, z, temps, case, extra_bins=()):
+        """every row of convs against the float64 reference; returns (unit, reference maximum) or None"""
+        n = len(z)
+        ref = ScaleRef(z)
+        unit = EPS * (np.log2(n) + 1) * max(ref.norm, 1e-30)
+        best = -np.inf
+        for i, (d, rb) in enumerate(temps):
+            exp = ref.row(d, rb)
+            best = max(best, float(exp.max()))
+            got = convs[i].astype(np.float64)
+            np.subtract(got, exp, out=got)
+            np.abs(got, out=got)
+            t = int(np.argmax(got))
+            u = float(got[t] / unit)
+            note(key, u if np.isfinite(u) else 1e30, n)
+            if not u <= TOL:
+                R.fail(f"scale-{key}", "at scale a response value differs from the inner product of the standardised data with the normalised "
+                       "template placed at that bin (float64 reference: window sums / FFT correlation)",
+                       dict(case, template=i, template_length=len(d), ref_bin=int(rb), bin=t, got=float(convs[i, t]), expected=float(exp[t]), error_units=u))
+                return None
+            if not np.all(np.asarray(d) == np.asarray(d).flat[0]):
+                bins = spot_bins(n, extra_bins)
+                sp = ref.spot(d, rb, bins)
+                if float(np.abs(sp - exp[bins]).max()) > 1e-6 * unit + 1e-9:
+                    raise RuntimeError("C13 scale(): the two float64 references (defining sum, FFT correlation) disagree")
+                us = float(np.abs(convs[i][bins].astype(np.float64) - sp).max() / unit)
+                if not us <= TOL:
+                    R.fail(f"scale-{key}", "at scale a response value differs from the defining inner-product sum evaluated at that bin",
+                           dict(case, template=i, template_length=len(d), ref_bin=int(rb), error_units=us))
+                    return None
+            del exp, got
+        return unit, best
+
+    def run_mf(key, x, kind, nbins_max, spacing, case, extra_bins=(), rows=True):
+        """one MatchedFilter run at scale: shapes of the bank, every response row, S/N and its location"""
+        n = len(x)
+        R.tick(case)
+        try:
+            mf = MatchedFilter(x, temp_kind=kind, nbins_max=nbins_max, spacing_factor=spacing)
+        except Exception as e:  # noqa: BLE001
+            R.fail(f"scale-{key}-raises", f"MatchedFilter raised at scale: {type(e).__name__}: {str(e)[:100]}", case)
+            return None
+        temps = [(t.data, int(t.ref_bin)) for t in mf.temp_bank]
+        c = mf.convs
+        if c.shape != (len(temps), n) or mf.zscores.data.shape != (n,):
+            R.fail(f"scale-{key}", "convs is not (ntemps, nbins) at scale", dict(case, shape=list(c.shape), ntemps=len(temps)))
+            return None
+        for tt in mf.temp_bank:
+            if kind == "boxcar":
+                okt = tt.ref_bin == 0 and tt.data.size == int(tt.width) and bool(np.all(tt.data == 1))
+            else:
+                okt = tt.ref_bin == int(np.argmax(tt.data)) and tt.data.size == 2 * tt.ref_bin + 1 and tt.data.size == tmpl_len(kind, tt.width)
+            if not okt:
+                R.fail("scale-template-shape", "a template of the bank does not have its width / its reference bin at the start (boxcar) or peak",
+                       dict(case, width=float(tt.width), size=int(tt.data.size), ref_bin=int(tt.ref_bin)))
+                return None
+        if rows:
+            res = compare_rows(key, c, mf.zscores.data, temps, case, extra_bins)
+            if res is None:
+                return None
+            unit, best = res
+            if abs(float(mf.snr) - best) > TOL * unit:
+                R.fail(f"scale-{key}", "snr differs from the maximum of the float64 inner products at scale", dict(case, snr=float(mf.snr), expected=best))
+        # the maximum and its first location, row by row (no flat index involved)
+        rmax = [float(c[i].max()) for i in range(len(temps))]
+        it = int(np.argmax(rmax))
+        pk = int(np.argmax(c[it]))
+        if not (float(mf.snr) == rmax[it] and int(mf._itemp) == it and mf.peak_bin == pk and mf.best_temp is mf.temp_bank[it]):
+            R.fail(f"scale-{key}-argmax", "snr / peak_bin / best_temp are not the maximum of convs and its first location at scale",
+                   dict(case, snr=float(mf.snr), max=rmax[it], reported=[int(mf._itemp), mf.peak_bin], argmax=[it, pk], flat_index=it * n + pk))
+        return mf
+
+    def good_above(n):
+        return int(kernels.nb_fft_good_size(n, True))
+
+    # ---- 1. data lengths around the powers of two, pulse and peak beyond bin 65536; flat arg-max index beyond 2**24 ----------------------
+    lengths = [(65535, 32), (65536, 32), (65537, 32), (2 ** 18 - 1, 32), (2 ** 18, 32), (2 ** 18 + 1, 32), (2 ** 20 - 1, 32), (2 ** 20, 32),
+               (2 ** 20 + 1, 13), (good_above(2 ** 20 + 1), 32), (2 ** 22 - 1, 4), (2 ** 22, 32), (good_above(2 ** 22 + 1), 9)]
+    for j, (n, nbm) in enumerate(lengths):
+        w = [4, 13, 2, 9][j % 4] if nbm >= 13 else 3
+        # pulse wrapping the end of the series / straddling bin 65536 / just before the end
+        p = n - w // 2 - 1 if j % 3 == 0 else (65536 - 1 if n > 70000 and j % 3 == 1 else n - 2 * w - (j % 5))
+        amp = 9.0
+        case = {"regime": "length", "n": n, "good_size": good_above(n), "temp_kind": "boxcar", "nbins_max": nbm, "spacing_factor": 1.5,
+                "seed": seed0 + j, "pulses": [[p, w, amp]], "noise": True, "generator": GEN}
+        R.case(("scale", "length", n, nbm), regime="scale")
+        x = scale_data(seed0 + j, n, [(p, w, amp)])
+        run_mf("response", x, "boxcar", nbm, 1.5, case, extra_bins=(p, p + w))
+        del x
+        gc.collect()
+
+    # ---- 2. above 2**24 samples: peak bin and flat index not representable in float32 ---------------------------------------------------
+    n = good_above(2 ** 24 + 1)
+    p, w, amp = 2 ** 24 + 1, 2, 30.0
+    case = {"regime": "above-2**24", "n": n, "good_size": n, "temp_kind": "boxcar", "nbins_max": 2, "spacing_factor": 1.5,
+            "seed": seed0 + 50, "pulses": [[p, w, amp]], "noise": True, "generator": GEN}
+    R.case(("scale", "above-2**24", n), regime="scale")
+    x = scale_data(seed0 + 50, n, [(p, w, amp)])
+    mf = run_mf("response", x, "boxcar", 2, 1.5, case)
+    if mf is not None and (mf.peak_bin != p or int(mf.best_temp.width) != w or tuple(mf.on_pulse) != (p, p + w)):
+        # 30-sigma pulse: the width-2 response at its start is 30 * sqrt(2) ~ 42, every other response is below 31 + noise
+        R.fail("scale-peak-above-2**24", "a 30-sigma boxcar starting above bin 2**24 is not reported at its start bin with its width",
+               dict(case, peak_bin=mf.peak_bin, best_width=float(mf.best_temp.width), on_pulse=[int(v) for v in mf.on_pulse]))
+    del x, mf
+    gc.collect()
+
+    # ---- 3. wide banks: templates and reference bins beyond 65536 samples; hundreds of templates -----------------------------------------
+    wide = [("boxcar", 2 ** 20, 100000, 1.5), ("gaussian", 2 ** 19, 25000, 1.6), ("lorentzian", 2 ** 19, 40000, 1.7),
+            ("boxcar", 2 ** 17 + 2 ** 14, 400, 1.01), ("gaussian", 2 ** 17, 300, 1.02)]
+    for j, (kind, n, nbm, sp) in enumerate(wide):
+        # modest S/N (about 9): the float32 mean / norm of a template of a 2**19-sample series is good to ~2e-4 relative (measured),
+        # an error proportional to the response itself; the tolerance is absolute
+        p, w, amp = (n - 70000, 300, 0.5) if sp > 1.4 else (n - 70000, 40, 1.5)
+        case = {"regime": "wide-bank" if sp > 1.4 else "many-templates", "n": n, "good_size": good_above(n), "temp_kind": kind, "nbins_max": nbm,
+                "spacing_factor": sp, "seed": seed0 + 100 + j, "pulses": [[p, w, amp]], "noise": True, "generator": GEN}
+        R.case(("scale", "bank", kind, n, nbm, sp), regime="scale")
+        x = scale_data(seed0 + 100 + j, n, [(p, w, amp)])
+        mf = run_mf("response-wide-bank" if sp > 1.4 else "response-many-templates", x, kind, nbm, sp, case, extra_bins=(p, p + w))
+        if mf is not None:
+            R.extra_cov.setdefault("scale_banks", []).append({"kind": kind, "n": n, "templates": len(mf.temp_bank),
+                                                              "longest_template": int(max(t.data.size for t in mf.temp_bank))})
+        del x, mf
+        gc.collect()
+
+    # ---- 4. the public kernel at scale: general order, long templates, large reference bins, hundreds of templates ----------------------
+    def run_kernel(key, z, temps, case):
+        R.tick(case)
+        try:
+            c = kernels.convolve_templates(z, typed.List([d for d, _ in temps]), typed.List([int(r) for _, r in temps]))
+        except Exception as e:  # noqa: BLE001
+            R.fail(f"scale-{key}-raises", f"convolve_templates raised at scale: {type(e).__name__}: {str(e)[:100]}", case)
+            return
+        if c.shape != (len(temps), len(z)):
+            R.fail(f"scale-{key}", "the response is not (ntemps, nbins) at scale", dict(case, shape=list(c.shape)))
+            return
+        compare_rows(key, c, z, temps, case)
+
+    n = 2 ** 18
+    spec = [(n, 65536), (3, 1), (n - 1, n - 2), (2 ** 17 + 1, 2 ** 17), (65537, 65536), (5, 0), (65536, 65535), (65535, 0), (70001, 70000), (2, 1)]
+    case = {"regime": "kernel-long-templates", "n": n, "seed": seed0 + 200, "pulses": [[n - 5, 9, 6.0]], "noise": True, "generator": GEN,
+            "templates": "scale_template(seed + 1 + i, length) for (length, ref_bin) in " + str(spec)}
+    R.case(("scale", "kernel-long", n), regime="scale")
+    z = scale_data(seed0 + 200, n, [(n - 5, 9, 6.0)])
+    run_kernel("kernel-long-templates", z, [(scale_template(seed0 + 201 + i, L), rb) for i, (L, rb) in enumerate(spec)], case)
+    del z
+    gc.collect()
+
+    n = 70000
+    g = np.random.default_rng(seed0 + 300)
+    order = [int(v) for v in g.permutation(320)]
+    case = {"regime": "kernel-many-templates", "n": n, "seed": seed0 + 300, "pulses": [[65530, 12, 5.0]], "noise": True, "generator": GEN,
+            "templates": "i-th template (i over numpy.random.default_rng(seed).permutation(320)): boxcar of 1 + i samples with reference bin i // 2 "
+                         "when i is even, scale_template(seed + i, 3 + 7 * i) with reference bin 5 * i when i is odd"}
+    R.case(("scale", "kernel-many", n), regime="scale")
+    z = scale_data(seed0 + 300, n, [(65530, 12, 5.0)])
+    temps = [(np.ones(1 + i, dtype=np.float32), i // 2) if i % 2 == 0 else (scale_template(seed0 + 300 + i, 3 + 7 * i), 5 * i) for i in order]
+    run_kernel("kernel-many-templates", z, temps, case)
+    del z, temps
+    gc.collect()
+
+    # ---- 5. offsets and positive factors at scale ----------------------------------------------------------------------------------------
+    n = 2 ** 20
+    pulses = [(2 ** 20 - 7, 13, 6.0)]
+    case0 = {"regime": "invariance", "n": n, "temp_kind": "boxcar", "nbins_max": 32, "spacing_factor": 1.5, "seed": seed0 + 400,
+             "pulses": [list(v) for v in pulses], "noise": True, "generator": GEN + "; transformed data: float32(a) * x + float32(b)"}
+    x = scale_data(seed0 + 400, n, pulses)
+    R.case(("scale", "invariance", n, 1.0, 0.0), regime="scale")
+    mf = run_mf("response", x, "boxcar", 32, 1.5, case0, rows=False)
+    if mf is not None:
+        zn = float(np.sqrt((mf.zscores.data.astype(np.float64) ** 2).sum()))
+        s0 = float(np.asarray(mf.zscores.scale).ravel()[0])
+        unit = EPS * (np.log2(n) + 1) * zn
+        top = np.partition(mf.convs.ravel(), -2)[-2:]
+        gap = float(top[1] - top[0])
+        snr0, pk0, w0 = float(mf.snr), mf.peak_bin, float(mf.best_temp.width)
+        del mf
+        for a, b in ((3.0, 0.0), (1.0, 1000.0), (1e-3, 40.0), (1e12, 0.0), (1e-12, 0.0)):
+            case = dict(case0, a=a, b=b)
+            R.case(("scale", "invariance", n, a, b), regime="scale")
+            x2 = (np.float32(a) * x + np.float32(b)).astype(np.float32)
+            mf2 = run_mf("invariance", x2, "boxcar", 32, 1.5, case, rows=False)
+            if mf2 is None:
+                continue
+            s2 = float(np.asarray(mf2.zscores.scale).ravel()[0])
+            tol = 4 * EPS * np.sqrt(n) * (float(np.abs(x2).max()) / s2 + float(np.abs(x).max()) / s0) + 2 * TOL * unit
+            dd = abs(float(mf2.snr) - snr0)
+            note("invariance", dd / tol, n)
+            if not dd <= tol:
+                R.fail("scale-invariance", "snr changes under x -> a x + b, a > 0, at scale", dict(case, snr=snr0, snr_transformed=float(mf2.snr), tolerance=tol))
+            elif gap > 2 * tol and (mf2.peak_bin != pk0 or float(mf2.best_temp.width) != w0):
+                R.fail("scale-invariance", "peak bin / best template change under x -> a x + b, a > 0, at scale (maximum well separated)",
+                       dict(case, peak=[pk0, mf2.peak_bin], width=[w0, float(mf2.best_temp.width)]))
+            del x2, mf2
+    del x
+    gc.collect()
+
+    # ---- 6. noiseless boxcars of a bank width far from the origin ------------------------------------------------------------------------
+    rec = [(65537, 32, 9, 65536 - 9), (65537, 32, 28, 65537 - 28), (2 ** 18, 32, 1, 65536), (2 ** 18, 32, 13, 65535), (2 ** 20 - 1, 32, 4, 2 ** 20 - 5),
+           (2 ** 20, 32, 19, 2 ** 20 - 19), (2 ** 20, 32, 2, 65535), (2 ** 20, 1000, None, 2 ** 20 - 1000), (2 ** 22, 32, 6, 2 ** 22 - 70000),
+           (2 ** 22, 32, 28, 0)]
+    for n, nbm, w, p in rec:
+        widths = [int(v) for v in MatchedFilter.get_box_width_spacing(nbm, 1.5)]
+        if w is None:
+            w = next(v for v in widths if v > 500)       # wider boxcars: neighbouring bins differ by 1/w of the peak, inside float32 error
+        amp = 5.0
+        case = {"regime": "boxcar-recovery", "n": n, "good_size": good_above(n), "temp_kind": "boxcar", "nbins_max": nbm, "spacing_factor": 1.5,
+                "pulses": [[p, w, amp]], "noise": False, "seed": 0, "generator": GEN}
+        R.case(("scale", "boxcar-recovery", n, nbm, w, p), regime="scale")
+        if w not in widths or p < 0 or p + w > n:
+            raise RuntimeError("C13 scale(): recovery case outside the bank / the data")
+        x = scale_data(0, n, [(p, w, amp)], noise=False)
+        mf = run_mf("boxcar-recovery", x, "boxcar", nbm, 1.5, case, rows=False)
+        if mf is not None and (mf.peak_bin != p or int(mf.best_temp.width) != w or tuple(mf.on_pulse) != (p, p + w)):
+            R.fail("scale-boxcar-recovery", "a noiseless boxcar of a bank width far from the origin is not recovered at its start bin with that width",
+                   dict(case, peak_bin=mf.peak_bin, best_width=float(mf.best_temp.width), on_pulse=[int(v) for v in mf.on_pulse], snr=float(mf.snr)))
+        del x, mf
+        gc.collect()
+
+    R.extra_cov["scale_worst_error_units"] = {k: {"units": v[0], "at_n": v[1]} for k, v in worst.items()}
+    R.extra_cov["scale_wall_seconds"] = round(time.time() - t_start, 1)
